@@ -173,3 +173,31 @@ def write_layout(pair, crate, fn):
     wc = WriteCanon(st["g"], crate, st["enum_types"], st["flag_types"], synth, findings)
     canon = wc.seq(items)
     return canon, ex, findings, wc
+
+
+def parse_guard(cond, body_size_name="body_size"):
+    """-> ('ne', K) | ('range', a, b) | ('gt', b) | ('other', text)"""
+    c = H.strip(cond)
+    if H.tag(c) == "un" and c[2] == "Not":
+        m = H.strip(c[4])
+        if H.is_mcall(m) and H.mcall(m)["name"] == "contains":
+            mc = H.mcall(m)
+            r = H.strip(mc["recv"])
+            arg = H.strip_refs(mc["args"][0]) if mc["args"] else None
+            if H.local_name(arg) == body_size_name and H.tag(r) == "call" and "RangeInclusive" in (H.call_path(r) or ""):
+                a, b = (H.lit_int(x) for x in H.call_args(r))
+                if a is not None and b is not None:
+                    return ("range", a, b)
+            if H.local_name(arg) == body_size_name and H.tag(r) == "struct" and "RangeInclusive" in r[1]:
+                f = {k: v for k, v in r[2]}
+                a, b = H.lit_int(f.get("start")), H.lit_int(f.get("end"))
+                if a is not None and b is not None:
+                    return ("range", a, b)
+    if H.tag(c) == "bin" and H.local_name(c[4]) == body_size_name:
+        v = H.lit_int(c[5])
+        if v is not None:
+            if c[2] == "Ne":
+                return ("ne", v)
+            if c[2] == "Gt":
+                return ("gt", v)
+    return ("other", H.short(c, maxlen=120))
